@@ -69,6 +69,9 @@ type Node struct {
 	counts      map[string]int
 	logFilters  []LogFilterSeen
 	NoLogFilter bool // answer eth_getLogs without applying address/topics (C12 metamorphic run)
+	// ReverseReceiptBatches: eth_getBlockReceipts batches are answered in reverse order
+	// (JSON-RPC 2.0 leaves the order of a batch response open; every receipt names its block).
+	ReverseReceiptBatches bool
 	// EmptyTraceOK: a block without traces answers trace_block with [].
 	ChainID uint64
 }
@@ -477,6 +480,13 @@ func (n *Node) Handle(body []byte) (status int, out []byte, closeConn bool) {
 		fault.LagHit = string(fullJSON) != string(lagJSON)
 	} else {
 		resp = answer(&sv)
+	}
+	if arr, ok := resp.([]any); ok && n.ReverseReceiptBatches && ri.Kind == "receipts" {
+		rev := make([]any, len(arr))
+		for i := range arr {
+			rev[len(arr)-1-i] = arr[i]
+		}
+		resp = rev
 	}
 	if n.KeepLog {
 		n.served = append(n.served, sv)
